@@ -441,6 +441,13 @@ class Interp:
             op = {'wrapping_add': 'Add', 'wrapping_sub': 'Sub', 'wrapping_mul': 'Mul', 'wrapping_neg': 'Neg'}[name]
             cont(self.arith(st, op, args[0], args[1] if len(args) > 1 else None), st)
             return
+        if name in ('from', 'into') and callee.get('trait') in ('core::convert::From', 'core::convert::Into') and len(callee['args']) >= 2:
+            # the lossless integer conversions of core are value-preserving casts
+            targs = callee['args']
+            dst, src = (targs[0], targs[1]) if name == 'from' else (targs[1], targs[0])
+            if self.facts.ty(src).get('k') == 'int' and self.facts.ty(dst).get('k') == 'int':
+                cont(self.cast(st, args[0], dst), st)
+                return
         raise Top('call to %s is outside the domain' % path)
 
     def rvalue(self, st, env, rv):
